@@ -8,7 +8,7 @@ use passkey_types::ctap2::{get_assertion, make_credential, Aaguid, AttestedCrede
 use serde::{Deserialize, Serialize};
 use serde_json::{json, Value};
 
-const RPS: [&str; 6] = ["", "example.com", "bücher.example", "Example.COM", "android:apk-key-hash:AbCd_-Ef", "example.com."];
+const RPS: [&str; 8] = ["", "example.com", "bücher.example", "Example.COM", "android:apk-key-hash:AbCd_-Ef", "example.com.", "a-long-relying-party.example3.com", "accounts.a-rather-long-relying-party-identifier.example-64.co.uk"];
 const COUNTERS: [Option<u32>; 5] = [None, Some(0), Some(1), Some(0x8000_0000), Some(0xFFFF_FFFF)];
 const ID_LENS: [usize; 8] = [0, 1, 16, 64, 255, 256, 1023, 65535];
 
@@ -35,7 +35,7 @@ fn flag_subsets() -> Vec<u8> {
 
 pub fn cases(tier: Tier) -> Vec<Case> {
     let mut v = vec![];
-    for rp in 0..6u8 {
+    for rp in 0..8u8 {
         for counter in 0..5u8 {
             for flags in flag_subsets() {
                 for assign_flags in [false, true] {
@@ -43,6 +43,12 @@ pub fn cases(tier: Tier) -> Vec<Case> {
                     for a in 0..2u8 {
                         for l in ID_LENS {
                             atts.push(Some((a, l)));
+                        }
+                    }
+                    // other legal shapes of the credential public key
+                    if rp == 1 && matches!(counter, 1 | 4) {
+                        for a in 2..5u8 {
+                            atts.push(Some((a, 16)));
                         }
                     }
                     for attested in atts {
@@ -53,7 +59,11 @@ pub fn cases(tier: Tier) -> Vec<Case> {
                                 continue;
                             }
                             // the 65535-byte ids are expensive: keep one rp/counter slice of them
-                            if attested.map_or(0, |a| a.1) == 65535 && !(rp == 1 && counter == 2) {
+                            if attested.map_or(0, |a| a.1) == 65535 && !(rp == 1 && counter == 2 && matches!(flags, 0x01 | 0x1d)) {
+                                continue;
+                            }
+                            // the RP-id spellings 3.. meet a slice of the counter/flag product
+                            if rp >= 3 && !(matches!(counter, 1 | 4) && matches!(flags, 0 | 0x01 | 0x05 | 0x1d)) {
                                 continue;
                             }
                             let rep = rp == 1 && (counter == 0 || counter == 4) && matches!(flags, 0 | 0x01 | 0x05 | 0x1d) && attested.map_or(true, |a| a.0 == 1 && (a.1 == 16 || a.1 == 64));
@@ -111,7 +121,14 @@ fn build(c: &Case) -> Result<Built, String> {
         let ag: [u8; 16] = if a == 0 { [0; 16] } else { core::array::from_fn(|i| 0xA0 + i as u8) };
         let cid: Vec<u8> = (0..l).map(|i| (i as u8).wrapping_mul(7).wrapping_add(3)).collect();
         let (x, y) = xy();
-        let key = coset::CoseKeyBuilder::new_ec2_pub_key(iana::EllipticCurve::P_256, x, y).algorithm(iana::Algorithm::ES256).build();
+        // key shapes: 0/1 both coordinates; 2 compressed (y as sign bit, RFC 9053); 3 OKP Ed25519 (x only);
+        // 4 both coordinates plus key id and an unregistered parameter
+        let key = match a {
+            2 => coset::CoseKeyBuilder::new_ec2_pub_key_y_sign(iana::EllipticCurve::P_256, x, y[31] & 1 == 1).algorithm(iana::Algorithm::ES256).build(),
+            3 => coset::CoseKeyBuilder::new_okp_key().param(iana::OkpKeyParameter::Crv as i64, Cbor::Integer((iana::EllipticCurve::Ed25519 as i64).into())).param(iana::OkpKeyParameter::X as i64, Cbor::Bytes(x)).algorithm(iana::Algorithm::EdDSA).build(),
+            4 => coset::CoseKeyBuilder::new_ec2_pub_key(iana::EllipticCurve::P_256, x, y).algorithm(iana::Algorithm::ES256).key_id(vec![1, 2, 3]).param(-70000, Cbor::Text("vendor".into())).build(),
+            _ => coset::CoseKeyBuilder::new_ec2_pub_key(iana::EllipticCurve::P_256, x, y).algorithm(iana::Algorithm::ES256).build(),
+        };
         let acd = AttestedCredentialData::new(Aaguid::from(ag), cid.clone(), key).map_err(|e| format!("constructor refused a {l}-byte id: {e}"))?;
         ad = ad.set_attested_credential_data(acd);
         expect_flags |= 0x40;
@@ -193,13 +210,15 @@ pub fn eval(c: &Case) -> (Vec<Finding>, String, u64) {
                     if &a.cred_id != id {
                         bad("credential-id", format!("credential id section has {} bytes, expected {}", a.cred_id.len(), id.len()));
                     }
-                    match rp::es256_cose_xy(&a.cose) {
-                        Ok((x, y)) => {
-                            if (x, y) != xy() {
-                                bad("cose-key", "COSE key coordinates differ".into());
+                    if c.attested.map_or(0, |a| a.0) <= 1 {
+                        match rp::es256_cose_xy(&a.cose) {
+                            Ok((x, y)) => {
+                                if (x, y) != xy() {
+                                    bad("cose-key", "COSE key coordinates differ".into());
+                                }
                             }
+                            Err(e) => bad("cose-key", e),
                         }
-                        Err(e) => bad("cose-key", e),
                     }
                 }
                 (None, None) => {}
@@ -436,7 +455,7 @@ pub fn run(ctx: &Ctx) -> Result<Run, String> {
     }
     let mut run = Run::from_stats(
         "exploration",
-        "full product RP id {'', ascii, Unicode, upper-case ascii, android facet with upper case, trailing dot} x counter {None,0,1,2^31,2^32-1} x all 16 subsets of {UP,UV,BE,BS} (through set_flags and by assigning the public field) x attested data {absent, AAGUID 0/pattern x id length 0,1,16,64,255,256,1023,65535} x extensions {none, hmac-secret true, hmac-secret-mc bytes, assertion hmac-secret}; each encoding is parsed by an independent byte-level parser, round-tripped, every strict prefix decoded (must be rejected) and every position replaced by 16 boundary values (all 256 for the flags byte and for a representative subset of encodings); thorough adds all two-byte corruptions of the two shortest encodings. plus every sequence of up to 3 (4 thorough) setter calls out of 11 (flags, attested data, make/assert extension outputs incl. None and empty) after the constructor: AT/ED set exactly when the section is present, own encoding decodes to an equal value. Every case is a distinct encoding",
+        "full product RP id {'', ascii, Unicode, upper-case ascii, android facet with upper case, trailing dot, 33 and 64 bytes long} x counter {None,0,1,2^31,2^32-1} x all 16 subsets of {UP,UV,BE,BS} (through set_flags and by assigning the public field) x attested data {absent, AAGUID 0/pattern x id length 0,1,16,64,255,256,1023,65535, and for 16-byte ids the key shapes compressed EC2 (y as sign bit), OKP, EC2 with key id and an unregistered parameter} x extensions {none, hmac-secret true, hmac-secret-mc bytes, assertion hmac-secret}; each encoding is parsed by an independent byte-level parser, round-tripped, every strict prefix decoded (must be rejected) and every position replaced by 16 boundary values (all 256 for the flags byte and for a representative subset of encodings); thorough adds all two-byte corruptions of the two shortest encodings. plus every sequence of up to 3 (4 thorough) setter calls out of 11 (flags, attested data, make/assert extension outputs incl. None and empty) after the constructor: AT/ED set exactly when the section is present, own encoding decodes to an equal value. Every case is a distinct encoding",
         true,
         stats,
     );
